@@ -30,6 +30,10 @@ def run(tier, seed, res, lean):
     from .c02 import node_part
     node = node_part(tier, seed + 1, res, lean, 'C10', ['ctx'], ops={'loopback', 'factory'})
     res.coverage['node_level'] = node
+    # inverses with arguments typed as forward nodes of their own layer
+    from .. import suite_ctx as _sc
+    for p in [p for i in range(8 if tier == 'quick' else 40) for p in _sc.run_typed_inverse(seed * 89 + i)][:3]:
+        res.violations.append(Violation('c10-typed-inverse-argument', p['msg'][:400], {'suite': 'S-CTX/typed-inverse', **p}))
     res.coverage.update({
         'evaluations': stats['cases'], 'distinct_nontrivial': stats['distinct_nontrivial'], 'rule': RULE,
         'programs': stats['cases'], 'disagreements_checked': len(model_bad) + len(oracle_bad),
